@@ -346,8 +346,8 @@ func (c *compiler) evalUpdateIndex(left, index, value interface{}) error {
 			err = fmt.Errorf("cannot assign to an entry of a nil map (%T)", left)
 		case index == nil || !reflect.TypeOf(index).AssignableTo(keyType):
 			err = fmt.Errorf("cannot use '%v' (%T) as %s value in map index", index, index, keyType)
-		case !reflect.TypeOf(index).Comparable():
-			err = fmt.Errorf("cannot use '%v' (%T) as a map index: the type is not comparable", index, index)
+		case !reflect.ValueOf(index).Comparable():
+			err = fmt.Errorf("cannot use '%v' (%T) as a map index: the value is not comparable", index, index)
 		case value == nil:
 			// nil is the zero value of the element type
 			rv.SetMapIndex(reflect.ValueOf(index), reflect.Zero(elemType))
@@ -408,8 +408,8 @@ func (c *compiler) evalAccessIndex(left, index interface{}, node *ast.IndexExpre
 			return nil, fmt.Errorf("cannot use %v (%T) as %s value in map index", index, index, rv.Type().Key())
 		}
 
-		if !reflect.TypeOf(index).Comparable() {
-			return nil, fmt.Errorf("cannot use %v (%T) as a map index: the type is not comparable", index, index)
+		if !reflect.ValueOf(index).Comparable() {
+			return nil, fmt.Errorf("cannot use %v (%T) as a map index: the value is not comparable", index, index)
 		}
 
 		val := rv.MapIndex(reflect.ValueOf(index))
